@@ -114,11 +114,33 @@ class C04(props.Prop):
         elif scen == 'mutator':
             reg = mutator_registry()
             names = sorted(c for (g, c) in reg['options'].values())
+            # half of the time a mutator that usually has accepted
+            # simplifications (so that failures hit rounds in progress)
+            popular = ['EraseNode', 'Constants', 'ReplaceByChild',
+                       'ReplaceByVariable', 'MergeWithChildren',
+                       'LetElimination', 'SimplifySymbolNames',
+                       'BinaryReduction', 'EliminateVariable',
+                       'ArithmeticSimplifyConstant', 'BVSimplifyConstants',
+                       'SortChildren']
+            pick = rng.choice(popular) if rng.random() < 0.5 else rng.choice(
+                names)
             spec['faults'] = {
                 'mutator': {
-                    'cls': rng.choice(names),
-                    'from': rng.choice([1, 1, 2, 5, 20]),
+                    'cls': pick if pick in names else rng.choice(names),
+                    'from': rng.choice([1, 1, 2, 5, 20, 100, 400, 1500])
+                    if rng.random() < 0.5 else int(2 ** rng.uniform(0, 11)),
+                    # transient failures (a mutator that fails on a few
+                    # nodes only) as well as permanent ones
+                    'count': rng.choice([None, None, 1, 3, 20]),
                     'meth': rng.choice([None, None, 'filter', 'mutations']),
+                    # optionally only calls made from one call site fail
+                    # (the strategies consult mutators from several places)
+                    'site': rng.choice([None, None, None, '__next__',
+                                        '_TaskGenerator__filter',
+                                        '_TaskGenerator__get_substs',
+                                        '_Producer__mutate_node',
+                                        'filter_nodes', 'generate',
+                                        '_check_seq', '_worker']),
                     'exc': rng.choice(['IndexError', 'AttributeError',
                                        'TypeError', 'AssertionError',
                                        'KeyError', 'ValueError']),
